@@ -408,7 +408,11 @@ func main() {
 		"ecdsaVerifier.Verify", "ecdsaVerifier.VerifyDigest", "encodeECDSASignature", "decodeECDSASignature", "I2OSP", "OS2IP",
 		"rsaSigner.Sign", "rsaSigner.SignDigest", "rsaVerifier.Verify", "rsaVerifier.VerifyDigest",
 		"ed25519Signer.Sign", "ed25519Verifier.Verify", "Countersign0", "VerifyCountersign0",
-		"Algorithm.computeHash", "computeHash", "Sign1", "Sign1Untagged", "deterministicBinaryString"}
+		"Algorithm.computeHash", "computeHash", "Sign1", "Sign1Untagged", "deterministicBinaryString",
+		// the raw-byte scan that refuses the self-described tag (transcribed in CoseModel/TagScan.lean)
+		"validateHeaderLabelCBOR", "ensureUntaggedHeaderLabels", "typeCheckedHeaderLabel", "headArgument", "scanSelfDescribedTag",
+		// both header buckets in one call, and the two bucket encoders (C19)
+		"Headers.UnmarshalFromRaw", "Headers.MarshalProtected", "Headers.MarshalUnprotected"}
 	for _, fn := range bodyFns {
 		fd := funcs[fn]
 		var rows []string
